@@ -601,6 +601,9 @@ func (x *c12) checkCloserRun() {
 			}
 			cl.OnReturn = func(st *xState, ret *ssa.Return, res []xVal) {
 				if st.Client&bOwn == 0 {
+					if len(res) == 1 && res[0].K == xNil && !sawUnkTAS {
+						x.bad("C12.K0-once", cOnce, x.pos(ret), fmt.Sprintf("with %d closers Run returns nil at %s on a path on which it did not take the running flag: the manager is not marked as started (a later Run or Add is accepted, Close on it is not the end) — a manager must run at most once", n, x.pos(ret)))
+					}
 					return
 				}
 				verifyE(st, "return at "+x.pos(ret))
